@@ -229,6 +229,8 @@ def run(ctx):
                 ok += 1
     finally:
         fs.cleanup()
+    if not ctx.replay:
+        ctx.sample({"query": VALUE_QUERY, "model lines `<DIE offset> <attribute #> <decoded>`": model[:4]})
     ctx.cov["evaluations"] = attrs
     ctx.cov["distinct_nontrivial"] = len(classes)
     ctx.cov["forests"] = n
